@@ -44,12 +44,13 @@ def run(chk):
     h = vf.build_harness("asan", "c15", xtp=True)
     env = vf.lib_env("asan")
     shards = 16
+    work = vf.scratch_dir("C15")
     n = vf.tier_n(chk.tier, 5000, 200000)
     per = (n + shards - 1) // shards
     chk.rule = RULE
     chk.sanitizer = {"flavour": "asan", "reports": 0}
     jobs = [lambda s=s: vf.run_proc(
-        [h, "--seed", str(chk.seed), "--shard", str(s), "--n", str(per)],
+        [h, "--seed", str(chk.seed), "--shard", str(s), "--n", str(per), "--dir", work],
         env=env, timeout=3000) for s in range(shards)]
     nd = vf.tier_n(chk.tier, 8, 60)
     env_omp = dict(env, OMP_NUM_THREADS="8")
@@ -59,6 +60,8 @@ def run(chk):
     for s, res in enumerate(vf.run_parallel(jobs)):
         if not chk.ingest(res, "c15 shard %d" % s):
             chk.sanitizer["reports"] += 0 if res.rc == 0 else 1
+    import shutil
+    shutil.rmtree(work, ignore_errors=True)
     chk.assumptions = [
         "moments beyond a site's rank are zero (as the mps reader guarantees)",
         "the Thole clauses use the damping argument a u^3 computed from the "
